@@ -167,19 +167,60 @@ impl Rec {
     }
 }
 
+thread_local! {
+    /// index bases of the running case (far-position lookups): events are logged relative to them
+    static BASES: Cell<(usize, usize)> = Cell::new((0, 0));
+}
+pub fn set_bases(bo: usize, bn: usize) {
+    BASES.with(|b| b.set((bo, bn)));
+}
+/// position relative to the base; anything outside 0..10^9 is logged as the impossible 999 999 999
+fn rel(v: usize, base: usize) -> usize {
+    let d = v.wrapping_sub(base);
+    if d > 1_000_000_000 {
+        999_999_999
+    } else {
+        d
+    }
+}
+fn len_ok(v: usize) -> usize {
+    v.min(999_999_999)
+}
+
+/// A lookup over a far-away index window: item i lives at position base + i; any access outside
+/// the window panics.
+pub struct FarLookup {
+    pub data: Vec<Item>,
+    pub base: usize,
+}
+impl Index<usize> for FarLookup {
+    type Output = Item;
+    fn index(&self, i: usize) -> &Item {
+        let k = i.wrapping_sub(self.base);
+        if k >= self.data.len() {
+            panic!("far lookup access outside the window");
+        }
+        &self.data[k]
+    }
+}
+
 impl DiffHook for Rec {
     type Error = i64;
     fn equal(&mut self, o: usize, n: usize, len: usize) -> Result<(), i64> {
-        self.done(json!({"ev":"equal","o":o,"n":n,"len":len}))
+        let (bo, bn) = BASES.with(|b| b.get());
+        self.done(json!({"ev":"equal","o":rel(o, bo),"n":rel(n, bn),"len":len_ok(len)}))
     }
     fn delete(&mut self, o: usize, len: usize, n: usize) -> Result<(), i64> {
-        self.done(json!({"ev":"delete","o":o,"len":len,"n":n}))
+        let (bo, bn) = BASES.with(|b| b.get());
+        self.done(json!({"ev":"delete","o":rel(o, bo),"len":len_ok(len),"n":rel(n, bn)}))
     }
     fn insert(&mut self, o: usize, n: usize, len: usize) -> Result<(), i64> {
-        self.done(json!({"ev":"insert","o":o,"n":n,"len":len}))
+        let (bo, bn) = BASES.with(|b| b.get());
+        self.done(json!({"ev":"insert","o":rel(o, bo),"n":rel(n, bn),"len":len_ok(len)}))
     }
     fn replace(&mut self, o: usize, ol: usize, n: usize, nl: usize) -> Result<(), i64> {
-        self.done(json!({"ev":"replace","o":o,"ol":ol,"n":n,"nl":nl}))
+        let (bo, bn) = BASES.with(|b| b.get());
+        self.done(json!({"ev":"replace","o":rel(o, bo),"ol":len_ok(ol),"n":rel(n, bn),"nl":len_ok(nl)}))
     }
     fn finish(&mut self) -> Result<(), i64> {
         self.done(json!({"ev":"finish"}))
